@@ -376,6 +376,54 @@ Definition fed_verdict (u : run) : nat * string :=
 Definition fed_bad := Eval vm_compute in
   filter (fun x => Nat.eqb (fst (snd x)) 1) (map (fun p => (fst p, fed_verdict (snd p))) (combine (seq 0 (length observed)) observed)).
 
+(* C06 on a recorded inbox run *)
+Definition actors_within_b (aa : list string) (t : json) : bool :=
+  match elems "actor" t with Some l => match to_ids "actor" l with Ok ids => all_in ids aa | _ => false end | None => false end.
+Definition authority_verdict (u : run) : nat * string :=
+  if negb (String.eqb (u_entry u) "postinbox") then (0, "") else
+  match inbox_activity u with
+  | None => (0, "")
+  | Some a =>
+      let ty := type_name a in
+      let ok200 := existsb (fun p => match fst p with EWriteHeader n => Nat.eqb n 200 | _ => false end) (u_trace u) in
+      (* the block check *)
+      let blocked_args := flat_map (fun p => match fst p with EApp n args => if String.eqb n "Blocked" then [args] else [] | _ => [] end) (u_trace u) in
+      let want := match elems "actor" a with Some l => match actor_iris l with Ok ids => Some [JArr (map JStr ids)] | _ => None end | None => None end in
+      if negb (forallb (fun args => match want with Some w => jsons_eqb args w | None => false end) blocked_args) then (1, "the block check was not asked about the id of every actor") else
+      match callback_segment (u_trace u) with
+      | None => (0, "")
+      | Some seg =>
+          if mem ty (c_fed_other (u_cfg u)) then (0, "") else
+          if (String.eqb ty "Update" || String.eqb ty "Delete") then
+            match must_origin_match a with
+            | Ok _ => (0, "")
+            | _ => if negb (object_required a) && (existsb (fun p => match fst p with EDb op _ => is_mod op | EBatchDeliver _ _ => true | _ => false end) seg || ok200)
+                   then (1, "applied although an object id does not have the host of the activity id") else (0, "")
+            end
+          else if String.eqb ty "Accept" then
+            match elems "actor" a with
+            | Some al => match first_fail astate (acc_step al) a0 (skipn 0 (match drop_until (fun e => match e with EApp n _ => String.eqb n "FederatingCallbacks" | _ => false end) (u_trace u) with Some r => take_until (fun e => match e with EDb op _ => String.eqb op "Exists" | EWriteHeader _ => true | _ => false end) r | None => [] end)) 0 with
+                         | inr _ => (1, "following updated without a stored Follow by this actor naming every accepting actor")
+                         | inl _ => (0, "") end
+            | None => (0, "")
+            end
+          else if String.eqb ty "Undo" then
+            if ok200 && negb (object_required a) then
+              match elems "actor" a with
+              | Some al => match to_ids "actor" al with
+                           | Ok aa => match run_monitor seen_step [] seg with
+                                      | Some seen => if Nat.eqb (length seen) (length (elems0 "object" a)) && forallb (actors_within_b aa) seen then (0, "")
+                                                     else (1, "Undo accepted although an actor of an undone activity is not an actor of the Undo")
+                                      | None => (0, "") end
+                           | _ => (1, "Undo accepted without readable actors") end
+              | None => (1, "Undo accepted without actors")
+              end
+            else (0, "")
+          else (0, "")
+      end
+  end.
+Definition authority_bad := Eval vm_compute in
+  filter (fun x => Nat.eqb (fst (snd x)) 1) (map (fun p => (fst p, authority_verdict (snd p))) (combine (seq 0 (length observed)) observed)).
 Definition n_observed := Eval vm_compute in length observed.
 Print replay_bad.
 Print lock_bad.
@@ -392,5 +440,6 @@ Print order_stats.
 Print effects_bad.
 Print effects_stats.
 Print fed_bad.
+Print authority_bad.
 Print diverge_bad.
 Print n_observed.
